@@ -10,5 +10,6 @@ bin/vp check $2 ${3:-quick} > /tmp/seed_$1_$2.out 2>&1; rc=$?
 grep -E "^VIOLATION|^KNOWN" /tmp/seed_$1_$2.out | cut -c1-200
 echo "seed=$1 check=$2 rc=$rc"
 git -C /repo checkout -- .
+git -C /verif checkout -- coq/Gen/Tables.v
 # the harness binary was built against the patched tree: rebuild it against the restored one
 (cd /verif/harness && RUSTFLAGS="--cfg swc_vue_jsx_verif" cargo build --offline >/dev/null 2>&1)
